@@ -253,6 +253,9 @@ func check(c Case, ev *evid.Collector, runs int) *evid.Violation {
 }
 
 func checkInc(c Case, ev *evid.Collector, runs int) (*evid.Violation, string) {
+	if c.Engine == "copy" {
+		return checkCopy(c, ev, runs)
+	}
 	c.normalise()
 	kb, _ := json.Marshal(c)
 	key := string(kb)
@@ -376,9 +379,106 @@ const (
 	schedRepeat = 4  // executions of a case that met a both-ready select
 	freeRepeat  = 10 // executions of every free-running case
 	replayRuns  = 50 // executions of a saved case
+	copyRepeat  = 2  // executions of every copy case
 )
 
+func checkCopy(c Case, ev *evid.Collector, runs int) (*evid.Violation, string) {
+	if c.Copy == nil {
+		c.Copy = &CopyCase{}
+	}
+	if c.Procs < 1 {
+		c.Procs = 4
+	}
+	old := runtime.GOMAXPROCS(c.Procs)
+	defer runtime.GOMAXPROCS(old)
+	kb, _ := json.Marshal(c)
+	labels := map[string]bool{"engine:copy": true}
+	var viol *evid.Violation
+	for i := 0; i < runs && viol == nil; i++ {
+		res := runCopy(*c.Copy)
+		ev.Class("copy:executions")
+		if res.inconclusive != "" {
+			return res.v, res.inconclusive
+		}
+		for k := range res.events {
+			labels[k] = true
+		}
+		viol = res.v
+	}
+	// non-trivial: two or more copies that really share a limited host
+	nt := false
+	use := map[int]int{}
+	nh := len(c.Copy.Hosts)
+	for _, j := range c.Copy.Jobs {
+		for _, e := range []int{j.Src, j.Tgt} {
+			if nh > 0 {
+				e = ((e % (nh + 1)) + nh + 1) % (nh + 1)
+				if e < nh && c.Copy.Hosts[e].Conc >= 0 && j.Cancel != 1 {
+					use[e]++
+				}
+			}
+		}
+	}
+	for _, n := range use {
+		if n >= 2 {
+			nt = true
+		}
+	}
+	ls := make([]string, 0, len(labels))
+	for l := range labels {
+		ls = append(ls, l)
+	}
+	sort.Strings(ls)
+	ev.Case(nt, string(kb), ls...)
+	ev.Sample(c)
+	return viol, ""
+}
+
+func genCopy(t *rapid.T) Case {
+	c := Case{Engine: "copy", Copy: &CopyCase{}}
+	nh := rapid.IntRange(1, 3).Draw(t, "nh")
+	for i := 0; i < nh; i++ {
+		h := CopyHost{Conc: rapid.SampledFrom([]int{1, 1, 1, 2, 2, 3, 0, -1}).Draw(t, "conc")}
+		if nh > 1 && rapid.IntRange(0, 3).Draw(t, "hasmirror") == 1 {
+			h.Mirrors = rapid.SliceOfN(rapid.IntRange(0, nh-1), 1, 2).Draw(t, "mirrors")
+		}
+		c.Copy.Hosts = append(c.Copy.Hosts, h)
+	}
+	nj := rapid.IntRange(2, 6).Draw(t, "nj")
+	for i := 0; i < nj; i++ {
+		c.Copy.Jobs = append(c.Copy.Jobs, CopyJob{
+			Src:    rapid.SampledFrom(endpointChoices(nh)).Draw(t, "src"),
+			Tgt:    rapid.SampledFrom(endpointChoices(nh)).Draw(t, "tgt"),
+			Blob:   rapid.IntRange(0, 2).Draw(t, "blob"),
+			Cancel: rapid.SampledFrom([]int{0, 0, 0, 0, 0, 1, 2, 3, 4, 5, 6}).Draw(t, "cancel"),
+		})
+	}
+	c.Procs = rapid.SampledFrom([]int{1, 2, 4, 16}).Draw(t, "procs")
+	return c
+}
+
+// endpointChoices: every registry host three times, the layout once.
+func endpointChoices(nh int) []int {
+	var l []int
+	for i := 0; i < nh; i++ {
+		l = append(l, i, i, i)
+	}
+	return append(l, nh)
+}
+
 // ---------------------------------------------------------------- tests
+
+// TestVerifCopy: engine 3 (the throttle as RegClient.BlobCopy, reghttp and ocidir use it).
+func TestVerifCopy(t *testing.T) {
+	ev := evid.For(prop)
+	rapid.Check(t, func(rt *rapid.T) {
+		c := genCopy(rt)
+		v := evid.Guard(func() *evid.Violation { return check(c, ev, copyRepeat) })
+		if ev.Report(v, c) {
+			rt.Fatalf("%v", v)
+		}
+	})
+}
 
 // TestVerifProp: engine 1 (owned schedule).
 func TestVerifProp(t *testing.T) {
@@ -405,6 +505,9 @@ func TestVerifFree(t *testing.T) {
 }
 
 func replayRunsFor(c Case) int {
+	if c.Engine == "copy" {
+		return replayRuns * 4
+	}
 	if c.Engine == "free" {
 		return replayRuns * 40
 	}
